@@ -916,6 +916,8 @@ class Hostile(Stream):
             ("accept_mime", 'text;profile="https://example.com/schema"'), ("accept_mime", "json;version=1/2"), ("accept_mime", "text/html, x;u=/;q=0.5"), ("accept_mime", "*;p=/"),
             ("accept_mime", 'a;v="b;c/d", text/*'), ("accept", "gzip;v=1/2"), ("accept_lang", "en;v=1/2"), ("accept_charset", "utf-8;v=1/2"),
             # int(): the ASCII separators U+001C..U+001F are white space for str.strip() but not for int()
+            # HeaderSet constructor keeps a header given in two spellings once (repair 1a2e0e6, former F08c)
+            ("set", "Cookie, cookie, X, COOKIE"), ("set", "\xc0, \xe0, a"), ("set", "a, \"A\", a"), ("set", ", ,"), ("set", "\xdf, SS, ss"),
             ("age", "\u0967"), ("age", " \u0661_\u0662\u3000"), ("age", "\uff11\uff10"), ("age", "\u0967_"), ("cc_request", "max-age=\u0967\u0966"), ("cc_response", "s-maxage=\u0e51"),
             ("options", "text/plain; charset*0=utf-; charset*" + "1" * 4301 + "=8"), ("accept_mime", "text/html;level*" + "1" * 4301 + "=1"), ("age", "9" * 4301), ("range", "bytes=0-" + "9" * 4301),
             ("content_range", "bytes 0-1/" + "9" * 4301), ("cc_request", "max-age=" + "9" * 4301), ("accept_mime", "a;q=0." + "9" * 4301), ("date", "Thu, 01 Jan " + "9" * 4301 + " 00:00:00 GMT"),
@@ -943,7 +945,8 @@ class Hostile(Stream):
             ("content_length", "HTTP_TRANSFER_ENCODING", "Chunked"), ("content_length", "CONTENT_LENGTH", " 12 "), ("content_length", "CONTENT_LENGTH", "+3"), ("form", "CONTENT_TYPE", "multipart/form-data"), ("form", "CONTENT_TYPE", "multipart/form-data; boundary=\xe9"),
             ("form", "CONTENT_TYPE", 'multipart/form-data; boundary="'), ("files", "CONTENT_TYPE", "multipart/form-data; boundary=a=1&b"), ("json", "CONTENT_TYPE", "application/json"),
             ("data", "CONTENT_TYPE", "application/x-www-form-urlencoded; charset=\xff"), ("form", "CONTENT_LENGTH", "99999999999999999999"), ("get_json", "CONTENT_TYPE", "application/json; charset=x"),
-            ("mimetype_params", "CONTENT_TYPE", "a/b; k*=utf-8''%ff; *0=z"), ("user_agent", "HTTP_USER_AGENT", "\xff"), ("access_control_request_headers", "HTTP_ACCESS_CONTROL_REQUEST_HEADERS", 'a, "'),
+            ("mimetype_params", "CONTENT_TYPE", "a/b; k*=utf-8''%ff; *0=z"), ("user_agent", "HTTP_USER_AGENT", "\xff"), ("access_control_request_headers", "HTTP_ACCESS_CONTROL_REQUEST_HEADERS", 'a, "'), ("access_control_request_headers", "HTTP_ACCESS_CONTROL_REQUEST_HEADERS", "X-A, x-a, X-B"),
+            ("pragma", "HTTP_PRAGMA", "no-cache, No-Cache"),
         ]]
         + [{"k": "a", "attr": "host", "env": ({} if h is None else {"HTTP_HOST": hs(h)}), "trusted": [hs(t) for t in tr]} for h, tr in [
             ("localhost", ["localhost"]), ("localhost:80", ["localhost"]), ("evil.example", ["localhost"]), ("a.example.com", [".example.com"]), ("example.com", [".example.com"]),
@@ -1320,8 +1323,8 @@ def model_cc_get(d, key, empty, ty):
 
 CHECK = Check(
     prop="C07",
-    gen=["Http", "RequestGlue", "RequestSurface", "Regexes", "DateExc", "Cookie", "Urlencode", "Containers", "Multipart", "PyFns_Http", "PyFns_Internal", "PyFns_HttpDict", "PyFns_HttpOptions", "PyFns_Etag", "PyFns_Range", "PyFns_Response", "CacheSetTable", "Response", "ResponseProps", "UrlTables", "Views"],
-    modules=["WzVerif.Props.C07", "WzVerif.Props.C07T"],
+    gen=["Http", "RequestGlue", "RequestSurface", "Regexes", "DateExc", "Cookie", "Urlencode", "Containers", "Multipart", "PyFns_Http", "PyFns_Internal", "PyFns_HttpDict", "PyFns_HttpOptions", "PyFns_Etag", "PyFns_Range", "PyFns_Response", "CacheSetTable", "Response", "ResponseProps", "UrlTables", "Views", "PyFns_FormGlue"],
+    modules=["WzVerif.Props.C07", "WzVerif.Props.C07T", "WzVerif.Props.C07T2"],
     streams=[Hostile()],
     assumptions=[
         "round 3 (Props/C07T): the totality theorems for parse_list_header, parse_set_header, parse_dict_header, parse_cache_control_header, parse_options_header, parse_content_range_header, parse_age, parse_csp_header, parse_etags (texts without LF) and is_resource_modified are restated on the definitions regenerated from the source by tools/py2lean.py (Gen/PyFns_*.lean): the translation keeps every IndexError / ValueError / KeyError / TypeError the Python code could raise as an explicit error arm, and the theorems say no such arm is reachable; modelled, not verified on that route: the regexes (hand models of C06), urllib's parse_http_list / unquote, int(), the CPython string primitives of Util/PyPrelude.lean (validated by stream prelude-kernels in the checks that run it)",
